@@ -86,6 +86,7 @@ m = {
  },
  "engines": [
    {"name": "vh", "path": "/verif/harness", "serves_properties": sorted(CHECKS), "kind_free_text": "Rust harness (proptest 1.11 TestRunner over a choice tape, exhaustive enumerators, 16 worker processes, reference models, step-budget + catch_unwind guards)"},
+   {"name": "fz_run", "path": "/verif/fuzzing/fuzz", "serves_properties": ["C02"], "kind_free_text": "cargo-fuzz / libFuzzer target (ASan, in-target oracle: panic, step budget, formatter totality); started by `vh` in C02's thorough tier, flagged inputs are re-checked by the harness with its exact signatures"},
  ],
  "checks": [],
  "not_applicable": [{"property_id": p, "reason": "not claimed yet: its check is designed (DESIGN.md §5) but not built at this commit"} for p in sorted(PLANNED)],
